@@ -8,13 +8,13 @@ package mem
 //@ syncmap store.records key string val keyvalue.FileRecord
 
 // A transaction holds the store lock from Transaction() until its single release.
-//@ spec txnInv(t *transaction) := t != nil && t.store != nil && t.ctx != nil && cancels(t.abort, t.ctx) && t.abort != nil &&
+//@ spec txnInv(t *transaction) := t != nil && storeInv(t.store) && t.ctx != nil && cancels(t.abort, t.ctx) && t.abort != nil &&
 //@                               t.op >= 0 && len(t.results) == t.op && forall(i, 0, len(t.results), t.results[i].Op == i) &&
 //@                               (t.released || held(t.store.mu))
 
 //@ func (s *store) Transaction(options keyvalue.TransactionOptions) (txn keyvalue.Transaction, err error)
 //@   props C18
-//@   requires s != nil && !held(s.mu)
+//@   requires storeInv(s) && !held(s.mu)
 //@   modifies held(s.mu)
 //@   ensures "locked" err == nil && held(s.mu)
 //@   ensures "fresh" isType(txn, *transaction) && fresh(txn.(*transaction)) && txnInv(txn.(*transaction)) && txn.(*transaction).store == s &&
@@ -52,10 +52,14 @@ package mem
 //@   ensures "released" err == nil && t.released && cancelled(t.ctx) && implies(!old(t.released), !held(t.store.mu)) && implies(old(t.released), held(t.store.mu) == old(held(t.store.mu)))
 //@   nopanic
 
+// Every record of the store is a fileRecord value holding a data blob and naming its own key.
+//@ spec recOK(rec keyvalue.FileRecord, s *store, k string) := isType(rec, fileRecord) && allocated(payload(rec)) && rec.(fileRecord).data != nil && rec.(fileRecord).store == s && rec.(fileRecord).path == k
+//@ spec storeInv(s *store) := s != nil && forall(k, dom(s.records), recOK(s.records[k], s, k))
+
 //@ func (s *store) Get(ctx context.Context, path string) (rec keyvalue.FileRecord, err error)
 //@   props C18 C14
-//@   requires s != nil
-//@   ensures "hit" implies(in(path, dom(s.records)), err == nil && rec == s.records[path] && rec != nil)
+//@   requires storeInv(s)
+//@   ensures "hit" implies(in(path, dom(s.records)), err == nil && rec == s.records[path] && rec != nil && recOK(rec, s, path))
 //@   ensures "miss" implies(!in(path, dom(s.records)), rec == nil && err == hackpadfs.ErrNotExist)
 //@   pure
 //@   nopanic
@@ -68,8 +72,9 @@ package mem
 
 //@ func (s *store) set(path string, src keyvalue.FileRecord, contents blob.Blob) (err error)
 //@   props C18 C14
-//@   requires s != nil && keyvalue.srcOK(src)
-//@   dispatch keyvalue.FileRecord *keyvalue.fileData
+//@   requires storeInv(s) && keyvalue.srcOK(src)
+//@   dispatch keyvalue.FileRecord *keyvalue.fileData fileRecord
+//@   ensures "inv" storeInv(s)
 //@   modifies mapOf(s.records), srcCache(src).data, srcCache(src).dataErr, srcCache(src).dataDone, oncedone(srcCache(src).dataOnce),
 //@            srcCache(src).mode, oncedone(srcCache(src).modeOnce), srcCache(src).modTime, oncedone(srcCache(src).modTimeOnce)
 //@   ensures "src-kept" keyvalue.srcKept(src)
